@@ -27,15 +27,18 @@ const year = 365 * 24 * time.Hour
 type certKind string
 
 const (
-	kProper        certKind = "proper"                 // well-formed client certificate
-	kProperBoth    certKind = "proper-client+server"   // client-auth and server-auth usages
-	kExpired       certKind = "expired"                // validity ended a year ago
-	kNotYet        certKind = "not-yet-valid"          // validity starts in a year
-	kServerOnly    certKind = "server-auth-only"       // wrong extended key usage
-	kIssuerCA      certKind = "issuer-cn-mismatch"     // subject CN = tenant, issued by a CA named "akash-ca"
-	kIssuerTenant  certKind = "issuer-cn-other-tenant" // subject CN = tenant, issued by a CA named like the other tenant
-	kCNNotBech32   certKind = "cn-not-bech32"          // subject CN is not an address
-	kCNOtherPrefix certKind = "cn-cosmos-prefix"       // bech32 but not an akash account address
+	kProper       certKind = "proper"                 // well-formed client certificate
+	kProperBoth   certKind = "proper-client+server"   // client-auth and server-auth usages
+	kExpired      certKind = "expired"                // validity ended a year ago
+	kNotYet       certKind = "not-yet-valid"          // validity starts in a year
+	kServerOnly   certKind = "server-auth-only"       // wrong extended key usage
+	kIssuerCA     certKind = "issuer-cn-mismatch"     // subject CN = tenant, issued by a CA named "akash-ca"
+	kIssuerTenant certKind = "issuer-cn-other-tenant" // subject CN = tenant, issued by a CA named like the other tenant
+	// self-signed with the subject's own key, subject CN = tenant, but the issuer field NAMES the other
+	// tenant (the chain only checks the subject CN against the publishing account)
+	kSelfIssuerTenant certKind = "self-signed-issuer-names-other-tenant"
+	kCNNotBech32      certKind = "cn-not-bech32"    // subject CN is not an address
+	kCNOtherPrefix    certKind = "cn-cosmos-prefix" // bech32 but not an akash account address
 )
 
 type madeCert struct {
@@ -60,8 +63,11 @@ type certSpec struct {
 	NotBefore time.Time
 	NotAfter  time.Time
 	Usage     []x509.ExtKeyUsage
-	IssuerCN  string // "" = self-signed
-	DNS       []string
+	IssuerCN  string // "" = self-signed; otherwise issued by a CA with this CN
+	// FakeIssuerCN: signed with the certificate's OWN key (cryptographically self-signed) while the
+	// issuer name says something else
+	FakeIssuerCN string
+	DNS          []string
 }
 
 func mustKey() *ecdsa.PrivateKey {
@@ -111,6 +117,9 @@ func makeCert(sp certSpec) *madeCert {
 		parent, signer = caParsed, caKey
 		extra = append(extra, caDER)
 	}
+	if sp.FakeIssuerCN != "" {
+		parent = &x509.Certificate{Subject: pkix.Name{CommonName: sp.FakeIssuerCN}}
+	}
 	der, err := x509.CreateCertificate(rand.Reader, tpl, parent, key.Public(), signer)
 	if err != nil {
 		panic(err)
@@ -150,6 +159,8 @@ func specFor(kind certKind, cn, otherCN string, serial *big.Int, now time.Time) 
 		sp.IssuerCN = "akash-ca"
 	case kIssuerTenant:
 		sp.IssuerCN = otherCN
+	case kSelfIssuerTenant:
+		sp.FakeIssuerCN = otherCN
 	case kCNNotBech32:
 		sp.CN = "tenant-" + cn[len(cn)-6:]
 	case kCNOtherPrefix:
@@ -162,5 +173,7 @@ func specFor(kind certKind, cn, otherCN string, serial *big.Int, now time.Time) 
 
 func timeValid(k certKind) bool   { return k != kExpired && k != kNotYet }
 func clientUsage(k certKind) bool { return k != kServerOnly }
-func selfIssued(k certKind) bool  { return k != kIssuerCA && k != kIssuerTenant }
+func selfIssued(k certKind) bool {
+	return k != kIssuerCA && k != kIssuerTenant && k != kSelfIssuerTenant
+}
 func cnIsAccount(k certKind) bool { return k != kCNNotBech32 && k != kCNOtherPrefix }
